@@ -115,6 +115,20 @@ def check_C09(tier: str, v: Verdict):
             pred, ref = gen.rand_unmatched_pair(rng, max_vox=48)
             dt = rng.choice(UINTS + (SINTS if sem else []))
             style = rng.choice(["small", "top", "wide", "mixed", "multiples", "multiples"])
+        missed = None
+        if wrap is None and not sem and cfg["input"] == "UNM" and rng.random() < 0.1:
+            # every prediction is an exact copy of a reference instance (all matched, no fresh label) and
+            # the references without a partner carry labels that only differ from small ones by a
+            # multiple of 2^8 / 2^16: a result dtype chosen from the matched labels alone cannot hold them
+            ref = gen.rand_instances(rng, gen.pick_shape(rng, 40), rng.randint(2, 4))
+            labs = [int(x) for x in np.unique(ref) if x]
+            if len(labs) >= 2:
+                missed = rng.sample(labs, rng.randint(1, len(labs) - 1))
+                pred = np.where(np.isin(ref, missed), 0, ref)
+            else:
+                pred = ref.copy()
+            dt = rng.choice([np.uint16, np.uint32, np.uint64])
+            style = "small"
         if dt in (np.int8,):
             style = "small"
         pl = [int(x) for x in np.unique(pred) if x]
@@ -129,6 +143,13 @@ def check_C09(tier: str, v: Verdict):
         else:
             fp = _injective_labels(rng, pl, dt, style)
             fr = _injective_labels(rng, rl, dt, rng.choice(["small", "top", "wide", "mixed", "multiples", "multiples"]) if dt != np.int8 else "small")
+        if missed is not None:
+            step = 256 if dt == np.uint16 or rng.random() < 0.5 else 65536
+            fr = _injective_labels(rng, rl, dt, "small")
+            kept = [x for k2, x in fr.items() if k2 not in missed]
+            for j, k2 in enumerate(missed):
+                fr[k2] = step * (j + 1) + (rng.choice(kept) if kept and rng.random() < 0.5 else 0)
+            style = "missed-multiples"
         if wrap is not None:
             # swap the wrapping values in (keeping the renaming injective)
             for f, (old, val) in ((fp, wrap[:2]), (fr, wrap[2:])):
